@@ -236,6 +236,22 @@ def run(ctx, res):
     from . import known
     known.crosslist(res, "C12", "C13-R8/template-anchor", "C12-X1")
     r6_position_writers(F, res)
+    # line and column of the reported position come from str::position_after: its arithmetic is decided by C13-R9 and shared
+    from . import c13, c07, report
+    rid7 = res.rule("C12-R7", "line/column arithmetic of str::position_after: bytes, `\\n` as the only line terminator (shared with C13-R9)", floor=3)
+    sub = report.Result("C12", ctx.tier)
+    try:
+        c13.r_bytes(F, sub)
+        for inst in sub.instances:
+            if str(inst["instance"]).startswith("position-after/") and inst["ok"]:
+                res.ok(rid7, inst["instance"], inst.get("where"), inst.get("detail"))
+        for v in sub.violations:
+            if "/position-after/" in v["key"]:
+                res.violation(rid7, v["key"].split("/", 1)[1], v["what"], v.get("where"))
+        for u in sub.undecided_list:
+            res.undecided(rid7, u["what"], u.get("where"))
+    except mir.AnchorLost as e:
+        res.undecided(rid7, str(e))
     res.explanation = (
         "Decides where the reported offset and expected set come from: the complete next_token decision table (error only "
         "when nothing matched, no layout progress and no partial-parse STOP), the error value (zero-width span at the "
